@@ -306,6 +306,31 @@ func runCheck(repo, verif, prop, tier, fnFilter string, relock, verbose bool) in
 					o.Res = solve(script, 3, false)
 				} else {
 					o.Res = solve(script, timeout, confirm)
+					if (o.Res.Status == "timeout" || o.Res.Status == "unknown") && o.vc != nil {
+						// the exit state is a merge of paths: (reach1 or reach2 ...) and not goal is
+						// unsatisfiable iff every (reach_k and not goal) is; the cases are much smaller
+						rr := o.Reach
+						if d, ok := o.vc.reachDef[rr]; ok {
+							rr = d
+						}
+						if parts := reachDisjuncts(rr); len(parts) > 1 && len(parts) <= 12 {
+							all := true
+							var secs float64
+							for _, pr := range parts {
+								c := *o
+								c.Reach = pr
+								r := solve(o.vc.script(&c, false), timeout, confirm)
+								secs += r.Seconds
+								if r.Status != "unsat" {
+									all = false
+									break
+								}
+							}
+							if all {
+								o.Res = SolverResult{Status: "unsat", Solver: fmt.Sprintf("portfolio, %d path cases", len(parts)), Seconds: secs}
+							}
+						}
+					}
 				}
 			}
 		}()
@@ -475,6 +500,26 @@ func readLock(verif, prop string) *Lock {
 		l.Obligations = map[string]LockEntry{}
 	}
 	return l
+}
+
+// reachDisjuncts: the top-level disjuncts of a reach condition (a merge of paths)
+func reachDisjuncts(r Term) []Term {
+	if !strings.HasPrefix(r, "(or ") {
+		return nil
+	}
+	args := sexprArgs(r)
+	if len(args) < 3 {
+		return nil
+	}
+	var out []Term
+	for _, a := range args[1:] {
+		if sub := reachDisjuncts(a); len(sub) > 1 {
+			out = append(out, sub...)
+		} else {
+			out = append(out, a)
+		}
+	}
+	return out
 }
 
 func writeLock(verif, prop string, l *Lock) {
